@@ -243,7 +243,11 @@ def seeds_large(rng):
     """(kind, label, bytes): valid files near the top of the property's size range (about 1 MiB) made of very many small records - what
     a per-record cost that grows with the number of records (time or memory) needs in order to show against the budgets"""
     out = []
-    out.append(("exl", "large-exl-115k-rows", ("EXLT,2\r\n" + "".join("%x,%d\r\n" % (i + 0x1000, i % 10 - 1) for i in range(115000))).encode()))
+    # the shortest possible rows (three-character names from a 62-letter alphabet, one-digit ids, LF): 174 000 distinct names in 1 MiB;
+    # a per-row cost that grows with the number of rows is (174 / 115)^2 = 2.3 times dearer than with the 115 000 rows used before,
+    # which had come to lie inside the CPU budget on an idle machine (DESIGN 16.5)
+    A62 = "0123456789abcdefghijklmnopqrstuvwxyzABCDEFGHIJKLMNOPQRSTUVWXYZ"
+    out.append(("exl", "large-exl-174k-rows", ("EXLT,2\n" + "".join("%s%s%s,%d\n" % (A62[i // 3844], A62[i // 62 % 62], A62[i % 62], i % 10) for i in range(174000))).encode()))
     out.append(("cfg", "large-cfg-47k-categories", ("".join("<C%05d>\r\nk%d\tv\r\n\r\n" % (i, i) for i in range(47000))).encode() + b"\0"))
     out.append(("cfg", "large-cfg-one-category-64k-keys", ("<Big>\r\n" + "".join("key%05d\t%d\r\n" % (i, i) for i in range(64000))).encode() + b"\0"))
     row = "1479062470\t44145529682\t71\t11\t2023.09.15.0000.%04d\tsha1\t50000000\t1c66becde2a8cf26a99d0fc7c06f15f8bab2d87c,950725418366c965d824228bf20f0496f81e0b9a\thttp://patch-dl.ffxiv.com/game/4e9a232b/D2023.09.15.0000.%04d.patch\r\n"
